@@ -109,6 +109,19 @@ def handle : List String → Option String
     let (h2, p2) ← (if val2 = "none" then some (h1, none) else (placeCol h1 val2).map (fun x => (x.1, some x.2)))
     let (h3, r) := ctorH srcWrites h2 f sc p1 p2
     pure s!"{showResH h3 r} | {showHeap (h3.take h2.length)} | {h3.length - h2.length}"
+  | ["c03", "htime", f, sc, val, val2] => do
+    -- an epoch constructor (fmt jd | mjd) on the heap: the caller's arrays in writable buffers; `aliases` from the regenerated
+    -- purity table; answer = result | buffers that existed before, afterwards | number of new buffers | do the result's parts
+    -- lie in the caller's buffers
+    let split ← (if f = "jd" then some splitMidnight else if f = "mjd" then some splitMjd else none)
+    let sc ← parseScale? sc
+    let (h1, p1) ← placeCol [] val
+    let (h2, p2) ← (if val2 = "none" then some (h1, none) else (placeCol h1 val2).map (fun x => (x.1, some x.2)))
+    let (h3, r) := ctorTimeH srcAliases split h2 sc p1 p2
+    let shared := match r with
+      | .ok o => (match o.p1 with | .ref a => decide (a < h2.length) | _ => false) || (match o.p2 with | .ref a => decide (a < h2.length) | _ => false)
+      | _ => false
+    pure s!"{showResH h3 r} | {showHeap (h3.take h2.length)} | {h3.length - h2.length} | {if shared then "shared" else "fresh"}"
   | _ => none
 
 end Driver.C03
